@@ -40,3 +40,21 @@ func specMixed(g *genericFMTP, h *h264FMTP, v *vp9FMTP, a *av1FMTP) bool {
 func specSelfGeneric(a *genericFMTP) bool {
 	return a.Match(a)
 }
+
+// specParseSym: the property's first sentence over codec descriptions as the callers
+// hand them over (mime type, clock rate, channels, fmtp line).
+func specParseSym(m1 string, c1 uint32, ch1 uint16, l1 string, m2 string, c2 uint32, ch2 uint16, l2 string) (bool, bool) {
+	a, b := Parse(m1, c1, ch1, l1), Parse(m2, c2, ch2, l2)
+
+	return a.Match(b), b.Match(a)
+}
+
+// specParseCase: the second sentence — the same description under two spellings of its
+// mime type, against any other description, in both directions.
+func specParseCase(
+	m1, m1b string, c1 uint32, ch1 uint16, l1 string, m2 string, c2 uint32, ch2 uint16, l2 string,
+) (bool, bool, bool, bool) {
+	a, a2, b := Parse(m1, c1, ch1, l1), Parse(m1b, c1, ch1, l1), Parse(m2, c2, ch2, l2)
+
+	return a.Match(b), a2.Match(b), b.Match(a), b.Match(a2)
+}
